@@ -44,6 +44,17 @@ func (w *World) constIntUp(root *ssa.Function, v ssa.Value, d int) (int64, bool)
 				return a - b, true
 			case token.MUL:
 				return a * b, true
+			case token.QUO:
+				if b != 0 {
+					return a / b, true
+				}
+			}
+		}
+	case *ssa.Call:
+		// len(x) of a value whose length the arm fixes
+		if la := lenArg(x); la != nil && w.lenKnown != nil {
+			if n, ok := w.lenKnown[w.canon(root, la)]; ok {
+				return n, true
 			}
 		}
 	}
@@ -199,6 +210,12 @@ func c16ECDHSSA(c *Ctx) int {
 				if !isSl || sl.Max != nil {
 					return
 				}
+				// the uncompressed point of a curve of this arm has exactly 1+2*size bytes: bounds computed from its
+				// length are constants in the arm
+				if bc, isB := w.canon(frame, sl.X).(*ssa.Call); isB && strings.HasSuffix(calleeName(bc), "crypto/ecdh.PublicKey).Bytes") {
+					w.lenKnown = map[ssa.Value]int64{ssa.Value(bc): 1 + 2*size}
+					defer func() { w.lenKnown = nil }()
+				}
 				if sl.Low != nil {
 					if lo, ok = w.constIntUp(frame, sl.Low, 0); !ok {
 						return
@@ -275,6 +292,24 @@ func ecdhBytesGuard(w *World, fn *ssa.Function, ins ssa.Instruction, facts *Fact
 		}
 		find(sl.Low, 0)
 		find(sl.High, 0)
+		if j == nil && okJ {
+			// bounds computed from the encoding's own length: the join of the curve arms above the slice - the nearest
+			// dominating block every edge into which is an arm of a curve
+			for b := sl.Block(); b != nil && j == nil; b = b.Idom() {
+				if len(b.Preds) < 2 {
+					continue
+				}
+				all := true
+				for _, pred := range b.Preds {
+					if _, _, n := ecdhArm(w.factsOnEdge(pred, b)); n != 1 {
+						all = false
+					}
+				}
+				if all {
+					j = b
+				}
+			}
+		}
 		if j == nil || !okJ || j.Parent() != sl.Parent() || !j.Dominates(sl.Block()) {
 			return false
 		}
@@ -311,6 +346,8 @@ func ecdhBytesGuardWith(w *World, sl *ssa.Slice, fm map[Lit]bool, root *ssa.Func
 		return false
 	}
 	lo, hi := int64(0), total
+	w.lenKnown = map[ssa.Value]int64{ssa.Value(src): total}
+	defer func() { w.lenKnown = nil }()
 	if sl.Low != nil {
 		if lo, ok = w.constIntUp(root, sl.Low, 0); !ok {
 			return false
